@@ -7,5 +7,6 @@ export MEASURED_REPO=${MEASURED_REPO:-/repo}
 /venv/bin/python translate/gen_init.py
 /venv/bin/python translate/gen_grammar.py
 /venv/bin/python translate/gen_sizes.py
+/venv/bin/python translate/gen_caches.py
 cd lean
 lake build Model Proofs Props Obligations driver 2>&1 | grep -v '^trace' | tail -5
